@@ -383,3 +383,40 @@ pub fn registries(thorough: bool) -> Vec<PortableRegistry> {
 fn path_of<I: IntoIterator<Item = String>>(segments: I) -> scale_info::Path<scale_info::form::PortableForm> {
     scale_info::Path { segments: segments.into_iter().collect() }
 }
+
+/// Length ladder: every list-valued slot of the format (registry entries, path segments, type parameters, docs of a
+/// type / field / variant, composite fields, variants, fields of a variant, tuple elements) at the lengths where an
+/// encoding or a declared bound could change: 0, 1, 2, 63|64 (compact length prefix grows), 255|256|257 (one-byte
+/// quantities), thorough: 16383|16384 as well. Variant i carries index i mod 256, so the 256-variant enum uses every index once.
+pub fn length_ladder(thorough: bool) -> Vec<PortableRegistry> {
+    let mut lens: Vec<usize> = vec![0, 1, 2, 63, 64, 255, 256, 257];
+    if thorough {
+        lens.extend([16383, 16384]);
+    }
+    let s = |p: &str, i: usize| format!("{p}{i}");
+    let fld = |i: usize| lit::field::<PortableForm>(Some(s("f", i)), 0.into(), None, vec![]);
+    let var = |i: usize| lit::variant::<PortableForm>(s("V", i), vec![], (i % 256) as u8, vec![]);
+    let one = |t: PType| PortableRegistry { types: vec![lit::entry(0, t)] };
+    let mut o = vec![];
+    for &n in &lens {
+        let strs: Vec<String> = (0..n).map(|i| s("s", i)).collect();
+        o.push(one(mk(strs.clone(), vec![], lit::primitive(PRIMS[3].0.clone()), vec![])));
+        o.push(one(mk(vec![], (0..n).map(|i| lit::param(s("P", i), if i % 2 == 0 { Some(0.into()) } else { None })).collect(), lit::primitive(PRIMS[3].0.clone()), vec![])));
+        o.push(one(mk(vec![], vec![], lit::primitive(PRIMS[3].0.clone()), strs.clone())));
+        o.push(one(mk(vec![], vec![], lit::composite((0..n).map(fld).collect()), vec![])));
+        o.push(one(mk(vec![], vec![], lit::composite(vec![lit::field(None, 0.into(), Some("T".into()), strs.clone())]), vec![])));
+        o.push(one(mk(vec![], vec![], lit::variants((0..n).map(var).collect()), vec![])));
+        o.push(one(mk(vec![], vec![], lit::variants(vec![lit::variant("A".into(), (0..n).map(fld).collect(), 255, vec![])]), vec![])));
+        o.push(one(mk(vec![], vec![], lit::variants(vec![lit::variant("A".into(), vec![], 0, strs.clone())]), vec![])));
+        o.push(one(mk(vec![], vec![], lit::tuple((0..n).map(|i| ((i % 3) as u32).into()).collect()), vec![])));
+        o.push(PortableRegistry { types: (0..n).map(|i| lit::entry(i as u32, prim(i % PRIMS.len()))).collect() });
+    }
+    // numeric slots at their extremes
+    for len in [0u32, 1, 255, 256, 65535, 65536, u32::MAX] {
+        o.push(one(mk(vec![], vec![], lit::array(len, 0.into()), vec![])));
+    }
+    for id in [0u32, 63, 64, 16383, 16384, (1 << 30) - 1, 1 << 30, u32::MAX] {
+        o.push(PortableRegistry { types: vec![lit::entry(id, mk(vec![], vec![], lit::sequence(id.into()), vec![]))] });
+    }
+    o
+}
